@@ -85,7 +85,12 @@ impl RK {
 
 /// Output checker kinds.
 #[derive(Clone, Copy, Debug, PartialEq, Eq, PartialOrd, Ord, Hash, Serialize, Deserialize)]
-pub enum OK { Equals, OkEq, ErrEq, ResultC, Always, Parity }
+pub enum OK {
+  Equals, OkEq, ErrEq, ResultC, Always, Parity,
+  /// Output checkers whose stamp type is zero-sized: `ZNever` is never consistent (the requirer may observe the whole
+  /// output), `ZBelow(n)` is inconsistent exactly while the output code exceeds `n` (the requirer observes nothing).
+  ZNever, ZBelow(i64),
+}
 
 pub fn out_code(o: &Out) -> Val { match o { Ok(v) => *v as Val, Err(e) => 100 + *e as Val } }
 
@@ -96,11 +101,14 @@ impl OK {
       OK::OkEq => match o { Ok(v) => *v as Val + 1, Err(_) => 0 },
       OK::ErrEq => match o { Err(e) => *e as Val + 1, Ok(_) => 0 },
       OK::ResultC => o.is_err() as Val,
-      OK::Always => 0,
+      OK::Always | OK::ZBelow(_) => 0,
+      OK::ZNever => out_code(o) + 1,
       OK::Parity => out_code(o).rem_euclid(2),
     }
   }
   pub fn is_exact(&self) -> bool { matches!(self, OK::Equals) }
+  pub fn is_zst(&self) -> bool { matches!(self, OK::ZNever | OK::ZBelow(_)) }
+  pub fn zst_inconsistent(&self, o: &Out) -> bool { match self { OK::ZNever => true, OK::ZBelow(n) => out_code(o) > *n, _ => false } }
 }
 
 // ---------------------------------------------------------------------------------------------------------------------
@@ -472,6 +480,7 @@ impl OutputChecker<Out> for OChk {
       OK::ResultC => OVal::Res(<ResultChecker as OutputChecker<Out>>::stamp(&ResultChecker, output)),
       OK::Always => { <AlwaysConsistent as OutputChecker<Out>>::stamp(&AlwaysConsistent, output); OVal::Unit }
       OK::Parity => OVal::Par(out_code(output).rem_euclid(2)),
+      OK::ZNever | OK::ZBelow(_) => OVal::Unit,
     };
     let owner = with_sim(|s| s.op_stack.last().filter(|f| f.op == OpK::Require).map(|f| (f.t, f.n, f.pos)));
     log(Ev::OStamp { serial, owner, chk: self.kind, out: *output });
@@ -490,6 +499,28 @@ impl OutputChecker<Out> for OChk {
       _ => true, // a stamp of another checker kind was handed to this checker
     };
     log(Ev::OCheck { serial: stamp.serial, chk: self.kind, out: *output, incons });
+    if incons { Some(*output) } else { None }
+  }
+}
+
+/// Output checker with a zero-sized stamp; the serial of the dependency travels in the checker.
+#[derive(Clone, Copy, PartialEq, Eq, Hash)]
+pub struct ZOChk { pub kind: OK, pub serial: u64 }
+impl Debug for ZOChk {
+  fn fmt(&self, f: &mut fmt::Formatter<'_>) -> fmt::Result { write!(f, "ZOChk({:?})#{}", self.kind, self.serial) }
+}
+impl OutputChecker<Out> for ZOChk {
+  type Stamp = ZStamp;
+  fn stamp(&self, output: &Out) -> ZStamp {
+    tick();
+    let owner = with_sim(|s| s.op_stack.last().filter(|f| f.op == OpK::Require).map(|f| (f.t, f.n, f.pos)));
+    log(Ev::OStamp { serial: self.serial, owner, chk: self.kind, out: *output });
+    ZStamp
+  }
+  fn check(&self, output: &Out, _stamp: &ZStamp) -> Option<impl Debug> {
+    tick();
+    let incons = self.kind.zst_inconsistent(output);
+    log(Ev::OCheck { serial: self.serial, chk: self.kind, out: *output, incons });
     if incons { Some(*output) } else { None }
   }
 }
